@@ -5,6 +5,7 @@ import asyncio
 import contextvars
 from unittest import mock
 
+import priv
 import rxworld
 import streams
 import vloop
@@ -58,7 +59,7 @@ class HostWorld:
         self.loop = vloop.VLoop()
         asyncio.set_event_loop(self.loop)
         self.log = []
-        cfg = {conf.CONF_DEVICE: {conf.CONF_DEVICE_PATH: "/dev/null", conf.CONF_DEVICE_BAUDRATE: 115200, conf.CONF_DEVICE_FLOW_CONTROL: None}}
+        self.cfg = cfg = {conf.CONF_DEVICE: {conf.CONF_DEVICE_PATH: "/dev/null", conf.CONF_DEVICE_BAUDRATE: 115200, conf.CONF_DEVICE_FLOW_CONTROL: None}}
 
         async def mk():
             api = ZBOSS(cfg)
@@ -73,12 +74,12 @@ class HostWorld:
             def write(self, b):
                 self.log.append("W%s#%d" % (hx(bytes(b)), world.cur.get()))
         self.tr = Tr(self.log)
-        self.p._transport = self.tr
-        self.api._uart = self.p
+        self.p.connection_made(self.tr)
+        priv.put(self.api, "api", "uart", self.p)
         app = mock.Mock()
         app.connection_lost = lambda exc: self.log.append("APPLOST")
         app.get_sequence = lambda: 1
-        self.api._app = app
+        self.api.set_application(app)
         self.tasks = {}
         self.results = {}
 
@@ -131,7 +132,7 @@ class HostWorld:
 
     def set_reset(self, on):
         async def hold():
-            async with self.api._reset_uart_reconnect:
+            async with priv.get(self.api, "api", "reset_lock"):
                 await self._release.wait()
         if on:
             self._release = asyncio.Event()
@@ -150,10 +151,10 @@ class HostWorld:
         world = self
 
         async def connect():
-            cfg = self.api._config[conf.CONF_DEVICE]
+            cfg = self.cfg[conf.CONF_DEVICE]
             p = uart.ZbossNcpProtocol(cfg, self.api)
-            p._transport = self.tr
-            self.api._uart = p
+            p.connection_made(self.tr)
+            priv.put(self.api, "api", "uart", p)
             self.p = p
             self.log.append("RECONNECTED")
         if not real_connect:
@@ -223,7 +224,8 @@ class HostWorld:
             asyncio.set_event_loop(None)
 
     def n_listeners(self):
-        return sum(len(v) for v in self.api._listeners.values())
+        ls = priv.get(self.api, "api", "listeners")
+        return 0 if ls is None else sum(len(v) for v in ls.values())
 
 
 def canon_real(entries, tsn_of_first):
